@@ -70,8 +70,11 @@ def real_format(e, inline):
 def real_parse(text):
     """-> ('ok', normalised micheline) | ('none',) | ('error',) | ('skip',)"""
     st = real()
+    st['calls'] = st.get('calls', 0) + 1
     try:
-        r = st['m2m'](text, st['parser'])
+        # one call in six goes through the documented default entry point `michelson_to_micheline(text)` (which builds its own
+        # parser) instead of the harness's long-lived parser object: both must give the same expression, whatever was parsed before
+        r = st['m2m'](text) if (st['calls'] % 6 == 0 or ('"' in text and len(text) < 400)) else st['m2m'](text, st['parser'])
     except RecursionError:
         return ('skip',)
     except Exception:  # noqa   MichelsonParserError, JSONDecodeError, AttributeError at EOF, …
@@ -127,10 +130,26 @@ STR_ALPHABET = [chr(c) for c in range(32, 127)]
 STR_SPECIAL = ['"', '\\', '\n', '\t', '\r', '\b', '\f', '\x00', '\x1f', '\x7f', 'é', 'ß', '→', ' ', '￿', '𝄞', '\U0010ffff', '/', ' ']
 
 
+_LAST_STRING = ['']
+
+
 def gen_string(rng):
+    s = _gen_string(rng)
+    if rng.random() < 0.12 and ' ' in _LAST_STRING[0]:
+        # the previous string with one run of blanks stretched or squeezed: same tokens, different data
+        prev = _LAST_STRING[0]
+        i = prev.index(' ')
+        s = prev[:i] + rng.choice(['  ', '   ', ' \t']) + prev[i + 1:] if rng.random() < 0.7 else prev.replace('  ', ' ')
+    _LAST_STRING[0] = s
+    return s
+
+
+def _gen_string(rng):
     k = rng.random()
     if k < 0.1:
         return ''
+    if k < 0.16:
+        return ' '.join(''.join(rng.choice('abcXYZ019') for _ in range(rng.randrange(0, 4))) for _ in range(rng.randrange(2, 5)))
     n = rng.choice([1, 2, 3, 5, 8, 13, 40, 120]) if rng.random() < 0.9 else rng.randrange(1, 300)
     if k < 0.55:
         return ''.join(rng.choice(STR_ALPHABET) for _ in range(n))
@@ -307,6 +326,11 @@ HAND_TREES = [
     node('Pair', [node('Ticket', [{'string': 'KT1'}, node('nat'), {'int': '1'}, {'int': '2'}]), {'int': '1'}]),
     node('pair', [node('nat', (), ['%a.b', '@x%y', ':1a']), node('nat')]),
     node('nat', (), ['%a@b']), node('nat', (), ['@%']), node('CAR', (), ['@%%']), node('nat', (), ['%']),
+    # texts that differ only in the amount of white space INSIDE a string literal (white space between tokens is layout, inside a
+    # string it is data): each is parsed in the same process right after its sibling
+    {'string': 'a b'}, {'string': 'a  b'}, {'string': 'a   b'}, {'string': ' a b'}, {'string': 'a b '}, {'string': 'a\tb'}, {'string': 'a \t b'},
+    node('Pair', [{'string': 'x y'}, {'int': '1'}]), node('Pair', [{'string': 'x  y'}, {'int': '1'}]), node('Pair', [{'string': 'x y'}, {'int': '1'}]),
+    node('PUSH', [node('string'), {'string': 'p  q   r'}]), node('PUSH', [node('string'), {'string': 'p q r'}]),
     {'string': ''}, {'string': '"'}, {'string': '\\'}, {'string': 'a"b\\c\nd\te\x7f\x01é𝄞'}, {'string': '\\"'}, {'string': '\\n'},
     {'int': '0'}, {'int': '-1'}, {'int': '-' + '9' * 80}, {'bytes': ''}, {'bytes': '00ff'},
     [], [[]], [[], [[]]], [[[[]]]], [{'int': '1'}], [[{'int': '1'}]], [{'int': '1'}, {'int': '2'}],
